@@ -40,4 +40,24 @@ Next == UNCHANGED <<k1, k2, field>>
 Spec == Init /\ [][Next]_<<k1, k2, field>>
 CommitmentExact == \A i \in {1, 2} : (Digest(Base, i) # Digest(Mut(Base, field), i)) <=> Committed(Base, i, field)
 InputsDiffer == Digest(Base, 1) # Digest(Base, 2)
+\* ---- BIP143 with the other hash types: what a signature of witness input i commits to
+HashTypes == {1, 2, 3, 129, 130, 131}
+Base2 == [Base EXCEPT !.outs = @ \o <<[value |-> <<9, 9, 0, 0, 0, 0, 0, 0>>, script |-> <<83>>]>>]       \* two outputs
+Mut2(tx, f) == IF f = "out2.value" THEN [tx EXCEPT !.outs[2].value = <<9, 9, 0, 0, 0, 0, 0, 1>>] ELSE Mut(tx, f)
+CommittedHT(tx, i, f, ht) ==
+    LET other == IF i = 1 THEN "in2" ELSE "in1"
+        own == IF i = 1 THEN "in1" ELSE "in2" IN
+    \/ f \in {"version", "locktime"}
+    \/ f \in {own \o ".outpoint", own \o ".seq", own \o ".key", own \o ".amount"}
+    \/ (f = other \o ".outpoint" /\ ~AnyoneCanPay(ht))
+    \/ (f = other \o ".seq" /\ ~AnyoneCanPay(ht) /\ BaseType(ht) = 1)
+    \/ (f \in {"out.value", "out.script"} /\ (BaseType(ht) = 1 \/ (BaseType(ht) = 3 /\ i = 1)))
+    \/ (f = "out2.value" /\ (BaseType(ht) = 1 \/ (BaseType(ht) = 3 /\ i = 2)))
+HashTypeCommitment ==
+    \A i \in {1, 2}, ht \in HashTypes :
+        Base2.ins[i].kind \in SegwitKinds =>
+            \A f \in {field, "out2.value"} :
+                (DigestHT(Base2, i, ht) # DigestHT(Mut2(Base2, f), i, ht)) <=> CommittedHT(Base2, i, f, ht)
+HashTypeAllIsDefault == \A i \in {1, 2} : Base.ins[i].kind \in SegwitKinds => DigestHT(Base, i, 1) = Digest(Base, i)
+HashTypesDiffer == \A i \in {1, 2}, a, b \in HashTypes : a # b => DigestHT(Base2, i, a) # DigestHT(Base2, i, b)
 =============================================================================
